@@ -626,6 +626,13 @@ def dimer(ctx, certified, replay_for, f_dim, thorough):
                     ctx.prove(lab + "returns" + ps, r.pc, z3.BoolVal(False), clause="returns normally", replay=rp, fn=f_dim)
                     continue
                 d, ret, lg = r.value
+                # the executor may run a branch twice (dry run of an if-merge, then the committed run): identical calls of the rotation routine are one call
+                uniq = []
+                for e_ in lg:
+                    key_ = (str(e_["A"].data.tolist()) if isinstance(e_.get("A"), NDArr) else repr(e_.get("A")), str(e_["B"].data.tolist()) if isinstance(e_.get("B"), NDArr) else repr(e_.get("B")))
+                    if key_ not in [k_ for k_, _ in uniq]:
+                        uniq.append((key_, e_))
+                lg = [e_ for _, e_ in uniq]
                 t = d.fields.get("transform_ab", "missing")
                 if t is None:
                     seen["none"] = True
@@ -635,9 +642,11 @@ def dimer(ctx, certified, replay_for, f_dim, thorough):
                     # with a transform left by an earlier calculation in place: if the very object that was stored comes back and no rotation was computed, the result
                     # depends on the history of the object -- that is the verdict, not a limitation of the symbolic run
                     kept_stale = bool(stale and isinstance(t, tuple) and len(t) == 2 and t[0] is STALE[0] and not lg)
+                    if os.environ.get("C18DBG"):
+                        print("C18DBG", type(t), (len(t), [type(x_).__name__ for x_ in t]) if isinstance(t, tuple) else t, len(lg))
                     ctx.prove(lab + "pair" + ps, r.pc, z3.BoolVal(False), clause="transform_ab == (R, v_ab) after one call of kabsch_rotation_matrix" +
                               (" (an earlier stored transform was returned unchanged, nothing was computed)" if kept_stale else ""), replay=rp, fn=f_dim,
-                              **({"structural": False} if kept_stale else {}))
+                              **({"structural": False} if kept_stale else {"structural": True}))
                     continue
                 seen["some"] = True
                 R, v = t
